@@ -130,6 +130,11 @@ func (it *interp) call(x *ssa.Call) val {
 	// interface method calls
 	if c.IsInvoke() {
 		recv := it.get(c.Value)
+		if p, ok := recv.(ptr); ok && it.dyn != nil && it.dyn[p.o] != nil && it.fn.Prog != nil {
+			if m := it.fn.Prog.LookupMethod(it.dyn[p.o], c.Method.Pkg(), c.Method.Name()); m != nil && len(m.Blocks) > 0 && ssau.InModule(m) && it.depth < 4 {
+				return it.inlineMethod(x, m, recv)
+			}
+		}
 		h := it.hashObj(recv)
 		m := c.Method.Name()
 		if h != nil {
@@ -600,7 +605,7 @@ func (it *interp) inlineFull(x *ssa.Call, fn *ssa.Function) val {
 		it.lenFact = map[string]int{} // shared with the callee: a length guard in one helper holds in the next
 	}
 	sub := &interp{fn: fn, m: it.m, env: map[ssa.Value]val{}, globals: it.globals, path: it.path, valu: it.valu,
-		decs: it.decs, dpos: it.dpos, visits: map[*ssa.BasicBlock]int{}, depth: it.depth + 1, inlined: true, lenFact: it.lenFact, params: it.params, lazy: it.lazy}
+		decs: it.decs, dpos: it.dpos, visits: map[*ssa.BasicBlock]int{}, depth: it.depth + 1, inlined: true, lenFact: it.lenFact, params: it.params, lazy: it.lazy, dyn: it.dyn}
 	for i, p := range fn.Params {
 		sub.env[p] = it.get(c.Args[i])
 	}
@@ -642,6 +647,62 @@ func (it *interp) inlineFull(x *ssa.Call, fn *ssa.Function) val {
 		prev, b = b, next
 	}
 	// the callee's return must not terminate the caller's path
+	if it.path.Kind != "panic" {
+		it.path.Kind = kind
+		it.path.Results = nil
+	}
+	it.decs, it.dpos = sub.decs, sub.dpos
+	it.hashes = append(it.hashes, sub.hashes...)
+	it.objs = append(it.objs, sub.objs...)
+	return ret
+}
+
+// inlineMethod interprets a devirtualised interface method call in place (receiver of known dynamic type).
+func (it *interp) inlineMethod(x *ssa.Call, fn *ssa.Function, recv val) val {
+	c := x.Common()
+	if it.lenFact == nil {
+		it.lenFact = map[string]int{}
+	}
+	sub := &interp{fn: fn, m: it.m, env: map[ssa.Value]val{}, globals: it.globals, path: it.path, valu: it.valu,
+		decs: it.decs, dpos: it.dpos, visits: map[*ssa.BasicBlock]int{}, depth: it.depth + 1, inlined: true, lenFact: it.lenFact, params: it.params, lazy: it.lazy, dyn: it.dyn}
+	if len(fn.Params) != len(c.Args)+1 {
+		it.unrec("devirtualised call with unexpected arity")
+		return tv{Leaf("?")}
+	}
+	sub.env[fn.Params[0]] = recv
+	for i, a := range c.Args {
+		sub.env[fn.Params[i+1]] = it.get(a)
+	}
+	b := fn.Blocks[0]
+	var prev *ssa.BasicBlock
+	var ret val = tv{Leaf("void")}
+	kind := it.path.Kind
+	for steps := 0; steps < 10000; steps++ {
+		sub.visits[b]++
+		if sub.visits[b] > 200 {
+			it.unrec("devirtualised callee %s loops too long", fn.Name())
+			break
+		}
+		sub.curBlk = b
+		next, done := sub.block(b, prev)
+		if sub.restart {
+			it.restart = true
+			break
+		}
+		if done {
+			if it.path.Kind == "return" {
+				switch len(sub.retVals) {
+				case 0:
+				case 1:
+					ret = sub.retVals[0]
+				default:
+					ret = tup{sub.retVals}
+				}
+			}
+			break
+		}
+		prev, b = b, next
+	}
 	if it.path.Kind != "panic" {
 		it.path.Kind = kind
 		it.path.Results = nil
